@@ -75,19 +75,19 @@ func init() {
 	checks["C04"] = histCheck("C04", []string{"C04.world_add_file_stored", "C04.update_membership", "C04.world_add_is_cmd", "C04.world_rm_is_cmd", "C04.world_add_frame", "C04.world_rm_frame", "C04.update_perm", "C04.update_same_noop", "C04.delete_exact", "C04.eraseIdx_canonical", "C04.sortEntries_sorted", "C06.getEntry_correct", "C04.rm_exact", "C04.rmArgs_exact", "C04.rm_unknown_refused", "C04.addArgs_frame", "C04.add_file_staged", "C04.update_canonical", "C04.delete_frame", "C04.add_dir_staged", "C04.addFold_staged"}, histRule,
 		func(ctx *Ctx) *HistCfg {
 			return &HistCfg{Prop: "C04", Cases: tierN(ctx, 200, 2000), MinSteps: 8, MaxSteps: 30,
-				W:       weights(Weights{"add": 25, "rm": 12, "write": 20, "rmfile": 8, "rmdir": 4, "reset": 1, "twins": 4, "junk": 0}),
+				W:       weights(Weights{"add": 25, "rm": 12, "write": 20, "rmfile": 8, "rmdir": 4, "reset": 1, "twins": 4, "junk": 0, "revert-add-probe": 5}),
 				Oracles: []HistOracle{orC04, orC06}, Idempotent: true}
 		})
 	checks["C02"] = histCheck("C02", []string{"C02.world_commit_end_to_end", "C02.flatten_writeTree", "C02.world_commit_frame", "C02.world_commit_spec", "C05.world_readback", "C02.build_ne_nil", "C02.subtrees_wellformed", "C05.readback_writeTree", "C05.walk_write", "C05.holds_storeAfter", "C01.get_put", "C02.commitCmd_ok", "C02.commit_readback", "C02.commitMake_ok", "C05.reset_readback", "C12.commit_parse_format"}, histRule,
 		func(ctx *Ctx) *HistCfg {
 			return &HistCfg{Prop: "C02", Cases: tierN(ctx, 200, 2000), MinSteps: 8, MaxSteps: 30,
-				W:       weights(Weights{"commit": 20, "add": 18, "add-all": 6, "twins": 3, "case-twin-commit": 3, "junk": 0}),
+				W:       weights(Weights{"commit": 20, "add": 18, "add-all": 6, "twins": 3, "case-twin-commit": 3, "junk": 0, "update-ref-probe": 2, "revert-add-probe": 1}),
 				Oracles: []HistOracle{orC02}}
 		})
 	checks["C07"] = histCheck("C07", []string{"C07.world_first_commit_succeeds", "C07.world_commit_succeeds_on_diff", "C07.world_commit_nothing_staged_refused", "C07.world_commit_needs_diff", "C07.world_commit_refused_unchanged", "C07.diff_fromTree", "C07.diff_fromTree_build", "C07.fromTree_nil_iff", "C07.fold_ok", "C06.getEntry_correct", "C07.diff_nil_iff", "C07.diff_exact", "C07.getNode_build", "C07.isNew_build", "C07.getNodeAux_build", "C02.commit_refuses_noop", "C02.commit_accepts_diff", "C07.status_staged_exact", "C07.status_clean_after_commit"}, histRule,
 		func(ctx *Ctx) *HistCfg {
 			return &HistCfg{Prop: "C07", Cases: tierN(ctx, 200, 2000), MinSteps: 8, MaxSteps: 30,
-				W:       weights(Weights{"commit": 16, "status": 14, "add": 18, "rm": 6, "restore": 6, "fd-swap": 4, "junk": 0}),
+				W:       weights(Weights{"commit": 16, "status": 14, "add": 18, "rm": 6, "restore": 6, "fd-swap": 4, "junk": 0, "update-ref-probe": 2, "revert-add-probe": 1}),
 				Oracles: []HistOracle{orC07}, StatusAfterCommit: true}
 		})
 	checks["C08"] = histCheck("C08", []string{"C08.world_reset_hard_files", "C08.world_reset_spec", "C05.reset_readback", "C08.accepts", "C08.accepts_number", "C08.accepted_shape", "C08.position_agrees", "C08.out_of_range_refused", "C08.mode_table", "C08.resetCmd_ok", "C08.reset_soft", "C08.reset_refused", "C05.reset_readback"}, histRule+"; before every reset the `reflog` listing is sampled",
@@ -99,7 +99,7 @@ func init() {
 	checks["C09"] = histCheck("C09", []string{"C09.world_restore_staged_exact", "C09.world_restore_files", "C09.restore_only_tracked", "C09.world_restore_frame", "C09.world_restore_staged_frame", "C09.restore_named", "C09.restore_unknown_refused", "C06.isDir_iff", "C06.mem_byDir", "C06.getEntry_correct", "C04.update_membership", "C04.delete_exact", "C09.restoreStaged_exact", "C09.restoreStaged_unknown_refused", "C09.restoreIndexOne_spec", "C09.restoreIndexOne_refused_iff", "C09.rsFold_spec"}, histRule,
 		func(ctx *Ctx) *HistCfg {
 			return &HistCfg{Prop: "C09", Cases: tierN(ctx, 200, 2000), MinSteps: 10, MaxSteps: 35,
-				W:       weights(Weights{"restore": 20, "commit": 8, "rmfile": 8, "rmdir": 5, "write": 16, "add": 14, "rm": 4, "fd-swap": 4, "edit-same-size": 4, "twins": 5, "restore-dir-probe": 6, "restore-family-probe": 6, "block-size-probe": 3, "junk": 0}),
+				W:       weights(Weights{"restore": 20, "commit": 8, "rmfile": 8, "rmdir": 5, "write": 16, "add": 14, "rm": 4, "fd-swap": 4, "edit-same-size": 4, "twins": 5, "restore-dir-probe": 6, "restore-family-probe": 6, "block-size-probe": 3, "update-ref-probe": 5, "junk": 0}),
 				Oracles: []HistOracle{orC09}}
 		})
 	checks["C10"] = histCheck("C10", []string{"C10.world_init_spec", "C10.world_update_ref_spec", "C10.world_revparse_faithful", "C10.world_list_faithful", "C03.inv_run", "C10.world_others_keep", "C10.world_branch_switch_refused_unchanged", "C10.world_switch_spec", "C10.world_create_spec", "C10.world_delete_spec", "C10.world_rename_spec", "C10.world_switch_create_spec", "C03.inv_step", "C10.getBranchPos_correct", "C10.add_ok", "C10.add_dup", "C10.add_invalid", "C10.delete_ok", "C10.delete_current_refused", "C10.delete_unknown_refused", "C10.update_ok", "C10.update_unknown_refused", "C10.rename_ok", "C10.rename_dup_refused", "C10.others_keep", "C10.updateRef_spec", "C10.create_refused", "C10.delete_refused", "C10.switch_spec", "C10.add_lookup", "C10.delete_lookup", "C10.update_lookup", "C10.rename_lookup", "C10.add_refines", "C10.delete_refines", "C10.update_refines"}, histRule,
@@ -135,7 +135,7 @@ func init() {
 	checks["C14"] = histCheck("C14", []string{"C14.world_log_ok", "C14.world_log_total", "C14.log_chain", "C14.log_nonpos", "C14.logCmd_chain", "C14.logCmd_count", "C14.logCmd_nonpos", "C14.logCmd_no_commits"}, histRule,
 		func(ctx *Ctx) *HistCfg {
 			return &HistCfg{Prop: "C14", Cases: tierN(ctx, 150, 1500), MinSteps: 15, MaxSteps: 60,
-				W:       weights(Weights{"commit": 25, "log": 14, "add-all": 10, "write": 14, "write-old": 10, "reset": 4, "switch": 3, "switch-c": 3, "restore": 0, "rm": 1, "junk": 0}),
+				W:       weights(Weights{"commit": 25, "log": 14, "add-all": 10, "write": 14, "write-old": 10, "reset": 4, "switch": 3, "switch-c": 3, "restore": 0, "rm": 1, "junk": 0, "update-ref-probe": 2, "revert-add-probe": 1}),
 				Oracles: []HistOracle{orC14}}
 		})
 	checks["C17"] = histCheck("C17", []string{"C17.world_restore_never_writes_meta", "C17.world_reset_never_writes_meta", "C17.world_no_meta", "C17.world_no_meta_partial", "C17.world_add_rm_no_meta", "C17.matches_dir", "C17.matches_ext", "C17.nothing_hidden_without_ignore", "C17.meta_always", "C17.addArgs_no_meta", "C17.ignored_meta", "C17.add_skips_meta_arg", "C17.status_never_lists_ignored", "C13.untracked_iff", "C17.restore_never_writes_meta", "C17.restoreStaged_no_meta"}, histRule,
